@@ -91,4 +91,4 @@ def is_ppt(mat: np.ndarray, sys: int = 2, dim: int | list[int] = None, tol: floa
         dim = [int(dim), mat.shape[0] // int(dim)]
     if tol is None:
         tol = np.sqrt(eps)
-    return is_positive_semidefinite(partial_transpose(mat, [sys - 1], dim), tol)
+    return is_positive_semidefinite(partial_transpose(mat, [sys - 1], dim), atol=tol)
